@@ -6,7 +6,7 @@ Import ListNotations.
 Open Scope string_scope.
 
 (* models a (dimensions t: time, s; metric x), b (u: time; y), c (v; z); a -> b many_to_one, c is not connected; graph-level metrics g1 (sql a.x),
-   g2 (sql c.z), g3 (no dotted sql) *)
+   g2 (sql c.z), g3 (no dotted sql), g4 (a ratio of a.x and c.z), g5 (sql b.y + a.x) *)
 Definition script_vmodels : list vmodel :=
   [ {| vm_name := "a"; vm_dims := [("t", true); ("s", false)]; vm_metrics := ["x"] |};
     {| vm_name := "b"; vm_dims := [("u", true)]; vm_metrics := ["y"] |};
@@ -15,7 +15,7 @@ Definition script_graph : graph :=
   [ {| g_name := "a"; g_pk := KStr "id"; g_rels := [ {| r_name := "b"; r_type := "many_to_one"; r_fk := KStr "b_id"; r_pk := KNone; r_through := None; r_tfk := None; r_rfk := None |} ] |};
     {| g_name := "b"; g_pk := KStr "id"; g_rels := [] |};
     {| g_name := "c"; g_pk := KStr "id"; g_rels := [] |} ].
-Definition script_gmetrics : gmetrics := [("g1", Some "a"); ("g2", Some "c"); ("g3", None)].
+Definition script_gmetrics : gmetrics := [("g1", ["a"]); ("g2", ["c"]); ("g3", []); ("g4", ["a"; "c"]); ("g5", ["b"; "a"])].
 
 Definition verr_eqb (x y : verr) : bool :=
   match x, y with
